@@ -81,7 +81,7 @@ def load_registry():
     return registry
 
 
-def run_property(pid, tier, repo, seed, overrides=None, quiet=False, unit_filter=None):
+def run_property(pid, tier, repo, seed, overrides=None, quiet=False, unit_filter=None, own_only=False):
     reg = load_registry()
     spec = reg.PROPS[pid]
     from pyvc import runner
@@ -89,7 +89,7 @@ def run_property(pid, tier, repo, seed, overrides=None, quiet=False, unit_filter
     # a composite property is decided by its own units plus those of the properties it is a lemma over (registry `deps`)
     want = {pid}
     mods = list(spec['modules'])
-    todo = [pid]
+    todo = [] if own_only else [pid]          # canary runs use the property's own units only
     while todo:
         for d in reg.PROPS.get(todo.pop(), {}).get('deps', []):
             if d not in want:
